@@ -815,6 +815,19 @@ package leveldb
 //@   at call (tFiles).searchMax#1
 //@     assert [C01:tables-not-offered-cannot-hold-a-visible-entry] forall j int :: (0 <= j && j < len(tables) && j != result) ==> !mayHold(tables[j], ikey)
 
+// C07: the number of a removed table may be handed out again only once the file itself has been removed - that is,
+// by the deferred callback that runs when the last reader of the table is gone, after the storage removal - never by
+// tOps.remove itself (a new table created under the number would be deleted by the pending removal).
+//@ func (*tOps).remove
+//@   props C07
+//@   safety off
+//@   nocall [C07:file-number-is-not-given-back-while-the-table-may-still-be-open] (*session).reuseFileNum
+//@ func (*tOps).remove$1
+//@   props C07
+//@   safety off
+//@   at before call (*session).reuseFileNum#*
+//@     assert [C07:file-number-is-given-back-only-after-the-file-was-removed] calls("storage.Storage.Remove") == old(calls("storage.Storage.Remove")) + 1
+
 // C07 (space is reclaimed): a version stays referenced - and every table it lists stays in storage - until its
 // reference is given back. Choosing the inputs of a compaction takes a reference on the current version; it is
 // either handed to the compaction (which releases it when it is done) or given back on the spot.
@@ -1649,6 +1662,36 @@ package leveldb
 //@   at before call (*version).get#1
 //@     assert [C01,C11:first-buffer-that-knows-the-key-decides] !gMemOK
 //@   ensures [C01,C11:the-deciding-buffers-answer-is-the-answer] gMemOK ==> ((ret <==> gMemFound) && (gMemGone ==> (!ret && err == nil)) && ((!gMemFound && !gMemGone) ==> err != nil))
+
+// C20 (arguments of reads are not modified): the internal form of a key the caller passed (a lookup key, a range
+// bound, a seek target) is built in memory of its own, never in the caller's buffer - not even in its spare capacity.
+//@ func (*DB).get
+//@   props C20
+//@   safety off
+//@   at before call makeInternalKey#*
+//@     assert [C20:internal-key-is-not-built-in-the-callers-buffer] isnil(arg0) || !sameblock(arg0, arg1)
+//@ func (*DB).has
+//@   props C20
+//@   safety off
+//@   requires seq <= keyMaxSeq
+//@   at before call makeInternalKey#*
+//@     assert [C20:internal-key-is-not-built-in-the-callers-buffer] isnil(arg0) || !sameblock(arg0, arg1)
+//@ func (*DB).SizeOf
+//@   props C20
+//@   safety off
+//@   at before call makeInternalKey#*
+//@     assert [C20:internal-key-is-not-built-in-the-callers-buffer] isnil(arg0) || !sameblock(arg0, arg1)
+//@ func (*DB).newIterator
+//@   props C20
+//@   safety off
+//@   at before call makeInternalKey#*
+//@     assert [C20:internal-key-is-not-built-in-the-callers-buffer] isnil(arg0) || !sameblock(arg0, arg1)
+//@ func (*dbIter).Seek
+//@   props C20
+//@   safety off
+//@   requires i.seq <= keyMaxSeq
+//@   at before call makeInternalKey#*
+//@     assert [C20:internal-key-is-not-built-in-the-callers-buffer] isnil(arg0) || !sameblock(arg0, arg1)
 
 // C20: merging other writers into a write never extends the caller's batch: merged single records go to a batch
 // the DB owns (the one passed as ourBatch, or one from the pool; that the pool does not hand out the caller's batch
